@@ -47,9 +47,9 @@ class Opt:
 
 
 class Iter:
-    """iterator over references to the elements of a slice (forward or reversed)"""
-    def __init__(self, slice_, order):
-        self.slice, self.order = slice_, list(order)
+    """iterator holding the list of items still to be produced (element references, sub-slices, tuples ...)"""
+    def __init__(self, items):
+        self.items = list(items)
 
 
 class Ref:
@@ -165,6 +165,14 @@ def _bin(op, x, y):
                     raise Stop("bitwise OR of a constant onto symbolic bits")
             return BV(rows, v.const | m)
         raise Stop("bitwise OR with unknown")
+    if base == "Add" and isinstance(x, BV) and isinstance(y, BV) and all(x.is_zero_bit(j) or y.is_zero_bit(j) for j in range(W)):
+        v = BV([p | q for p, q in zip(x.rows, y.rows)], x.const | y.const)
+        return (v, False) if ovf else v
+    if base == "Add" and (isinstance(x, BV) != isinstance(y, BV)):
+        v, m = (x, y) if isinstance(x, BV) else (y, x)
+        if isinstance(m, int) and all(not ((m >> j) & 1) or v.is_zero_bit(j) for j in range(W)):
+            r_ = BV(list(v.rows), v.const | m)
+            return (r_, False) if ovf else r_
     if base in ("Ne", "Eq") and (isinstance(x, BV) != isinstance(y, BV)):
         v, m = (x, y) if isinstance(x, BV) else (y, x)
         if m == 0 and all(v.is_zero_bit(j) for j in range(1, W)):
@@ -264,21 +272,53 @@ def run(fn, args, stop_before=None, max_steps=4000, call_model=None, stop_after=
             raise Stop("non-integer constant")
         return read(op_place(o))
 
+    def as_iter(v):
+        d = v.get() if isinstance(v, Ref) else v
+        if isinstance(d, Iter):
+            return d
+        if isinstance(d, Slice):
+            return Iter([Ref(d, i) for i in range(len(d.items))])
+        if isinstance(d, Struct) and set(d.fields) == {0, 1} and all(isinstance(d.fields[i], int) for i in (0, 1)):
+            return Iter(list(range(d.fields[0], d.fields[1])))
+        raise Stop("not iterable")
+
     def default_call(name, argv, t):
         a0 = argv[0] if argv else None
         d0 = a0.get() if isinstance(a0, Ref) else a0
         if name == "len" and isinstance(d0, Slice):
             return len(d0.items)
-        if name == "into_iter" and isinstance(a0, (Struct, Iter)):
+        if name == "into_iter" and isinstance(d0, (Iter,)):
+            return d0
+        if name == "into_iter" and isinstance(a0, Struct):
             return a0
+        if name == "into_iter" and isinstance(d0, Slice):
+            return as_iter(d0)
         if name in ("iter_mut", "iter") and isinstance(d0, Slice):
-            return Iter(d0, range(len(d0.items)))
-        if name == "rev" and isinstance(a0, Iter):
-            return Iter(a0.slice, reversed(a0.order))
+            return as_iter(d0)
+        if name in ("deref", "deref_mut", "as_slice", "as_mut_slice", "as_ref", "as_mut", "borrow") and isinstance(d0, Slice):
+            return Ref(d0)
+        if name == "to_vec" and isinstance(d0, Slice):
+            return Slice(list(d0.items))
+        if name == "reverse" and isinstance(d0, Slice):
+            d0.items.reverse()
+            return ()
+        if name == "rev" and isinstance(d0, Iter):
+            return Iter(list(reversed(d0.items)))
+        if name == "enumerate" and isinstance(d0, Iter):
+            return Iter([(i, x) for i, x in enumerate(d0.items)])
+        if name == "zip" and len(argv) == 2 and isinstance(d0, Iter):
+            b = as_iter(argv[1])
+            return Iter(list(zip(d0.items, b.items)))
+        if name in ("take", "skip") and isinstance(d0, Iter) and isinstance(argv[1], int):
+            return Iter(d0.items[:argv[1]] if name == "take" else d0.items[argv[1]:])
+        if name in ("chunks", "chunks_mut") and isinstance(d0, Slice) and isinstance(argv[1], int) and argv[1] > 0:
+            if name == "chunks_mut":
+                raise Stop("mutable chunk views")
+            n_ = argv[1]
+            return Iter([Ref(Slice(d0.items[i:i + n_])) for i in range(0, len(d0.items), n_)])
         if name in ("next",) and isinstance(d0, Iter):
-            if d0.order:
-                i = d0.order.pop(0)
-                return Opt(Ref(d0.slice, i), True)
+            if d0.items:
+                return Opt(d0.items.pop(0), True)
             return Opt()
         if name == "next" and isinstance(d0, Struct) and set(d0.fields) == {0, 1}:
             s_, e_ = d0.fields[0], d0.fields[1]
@@ -414,6 +454,8 @@ def run(fn, args, stop_before=None, max_steps=4000, call_model=None, stop_after=
             locate(t["d"]).set(out)
             if t.get("t") is None:
                 raise Stop("diverging call")
+            bb = t["t"]
+        elif tk == "drop":
             bb = t["t"]
         elif tk == "unreachable":
             raise Stop("unreachable reached")
